@@ -72,6 +72,7 @@ fn leaves() -> Vec<Expression> {
         Expression::identifier("n"),
         Expression::identifier("s"),
         Expression::identifier("u"),
+        Expression::identifier("q"),
         FieldExpression::new(Prefix::from_name("t"), "k").into(),
         IndexExpression::new(Prefix::from_name("t"), num(1.0)).into(),
         FunctionCall::from_name("ext_f").into(),
@@ -248,6 +249,31 @@ fn main() {
                                         .into());
                                 }
                             }
+                        }
+                    }
+                }
+            }
+            // comparisons: every pair of numeric leaves and of identifiers (the same name on both sides included:
+            // a NaN is not equal to itself, -0 equals 0), never sampled
+            let comparable: Vec<Expression> = vec![
+                num(0.0), num(-0.0), num(1.0), num(-3.0), num(0.1), num(1e-20), num(2e-20), num(5e-324),
+                num(9007199254740993.0), num(9007199254740992.0), num(f64::NAN), num(f64::INFINITY), num(f64::NEG_INFINITY),
+                BinaryExpression::new(BinaryOperator::Slash, num(0.0), num(0.0)).into(),
+                BinaryExpression::new(BinaryOperator::Asterisk, num(0.0), num(-1.0)).into(),
+                BinaryExpression::new(BinaryOperator::Plus, num(0.1), num(0.2)).into(),
+                num(0.3), num(0.30000000000000004),
+                Expression::identifier("n"), Expression::identifier("q"), Expression::identifier("u"),
+                Expression::identifier("t"), Expression::identifier("s"),
+                string(b""), string(b"0"), string(b"a"),
+            ];
+            for op in [BinaryOperator::Equal, BinaryOperator::NotEqual, BinaryOperator::LowerThan, BinaryOperator::LowerOrEqualThan] {
+                for a in &comparable {
+                    for b in &comparable {
+                        let cmp: Expression = BinaryExpression::new(op, a.clone(), b.clone()).into();
+                        emit(&cmp);
+                        if matches!(op, BinaryOperator::Equal | BinaryOperator::NotEqual) && (full || rng.chance(1, 8)) {
+                            emit(&IfExpression::new(cmp.clone(), string(b"yes"), string(b"no")).into());
+                            emit(&UnaryExpression::new(UnaryOperator::Not, cmp).into());
                         }
                     }
                 }
